@@ -354,7 +354,7 @@ def run_core_family(res, work, family, tier, seed, parts=8, timeout=1800, clause
     for d, meta, fails, r in results:
         res.evaluations += meta["execs"]
         res.distinct += meta["distinct"]
-        res.extra.setdefault("scenarios", []).extend(meta["scenarios"])
+        res.extra.setdefault("scenarios", []).extend(meta.get("scenarios") or [])
         res.extra["steps"] = res.extra.get("steps", 0) + meta["steps"]
         if meta.get("stuck"):
             raise Infra("scheduler: %d executions got stuck (%s)" % (meta["stuck"], meta.get("stuck_msg")))
@@ -401,7 +401,7 @@ def run_core_family(res, work, family, tier, seed, parts=8, timeout=1800, clause
     return results
 
 
-def tallycore(work, res, label, expect=None, deadlock=False, timeout=1500, workers=None, **overrides):
+def tallycore(work, res, label, expect=None, deadlock=False, timeout=1500, workers=None, drop_invariants=(), **overrides):
     """Model-check TallyCore (MCTallyCore.tla) with constant overrides; expect = invariant that must be violated (non-vacuity)."""
     name = "tc_%s.cfg" % re.sub(r"[^A-Za-z0-9]", "_", label)
     ov = {k: v for k, v in overrides.items()}
@@ -415,6 +415,8 @@ def tallycore(work, res, label, expect=None, deadlock=False, timeout=1500, worke
         src, n = re.subn(r"(?m)^(\s*%s\s*(?:=|<-)\s*).*$" % re.escape(k), lambda m: m.group(1) + str(v), src)
         if n == 0:
             raise Infra("TallyCore.cfg has no constant %s" % k)
+    for inv in drop_invariants:
+        src = re.sub(r"(?m)^(INVARIANTS.*?)\b%s\b" % re.escape(inv), r"\1", src)
     with open(os.path.join(work, name), "w") as f:
         f.write(src)
     if expect:
